@@ -20,9 +20,23 @@ import (
 func RoundTrip(defs *schema.Definitions, sourceXML string) (*schema.Definitions, Rec) {
 	rec := Rec{Ev: "roundtrip", Ok: true}
 	var problems []string
+	// A model built (or edited) through the Go API instead of parsed: olive items without a
+	// type.  Serialising such a model must not write the default back into it.
+	if untyped, n := untypedVariant(sourceXML); untyped != nil && n > 0 {
+		before := alpha.Print(untyped)
+		if _, err := xml.Marshal(untyped); err != nil {
+			problems = append(problems, "marshal of the API-edited model: "+err.Error())
+		} else if after := alpha.Print(untyped); after != before {
+			problems = append(problems, "altered-by-marshal (model with untyped olive items): "+alpha.FirstDiff(before, after))
+		}
+	}
+	before := alpha.Print(defs)
 	out, err := xml.Marshal(defs)
 	if err != nil {
 		return nil, Rec{Ev: "roundtrip", Ok: false, Kind: "marshal: " + err.Error()}
+	}
+	if after := alpha.Print(defs); after != before {
+		problems = append(problems, "altered-by-marshal: "+alpha.FirstDiff(before, after))
 	}
 	defs2, err := schema.Parse(out)
 	if err != nil {
@@ -64,3 +78,17 @@ func RoundTrip(defs *schema.Definitions, sourceXML string) (*schema.Definitions,
 }
 
 var _ = fmt.Sprintf
+
+// untypedVariant parses the source again and blanks the type of every olive item that has the
+// default type, which is what a model assembled through the Go API looks like (only
+// Item.UnmarshalXML fills the default in).  Returns the model and the number of blanked items.
+func untypedVariant(sourceXML string) (*schema.Definitions, int) {
+	if sourceXML == "" {
+		return nil, 0
+	}
+	defs, err := schema.Parse([]byte(sourceXML))
+	if err != nil {
+		return nil, 0
+	}
+	return defs, alpha.BlankDefaultItemTypes(defs)
+}
